@@ -24,7 +24,7 @@ class Stats:
         self.sample_histories = []
 
 
-def bfs(factory, events, max_depth=None, max_states=200000, enabled=None):
+def bfs(factory, events, max_depth=None, max_states=200000, enabled=None, stop_after_violations=None):
     """factory() -> product with .apply(event) -> list[(fingerprint, message)] | raises Desync,
     .canon() -> hashable, .observations (int counter, optional)."""
     st = Stats()
@@ -34,6 +34,11 @@ def bfs(factory, events, max_depth=None, max_states=200000, enabled=None):
     st.states = 1
     depth_done = 0
     while frontier:
+        if stop_after_violations is not None and len(st.violations) >= stop_after_violations:
+            # enough counter-examples (the shortest ones come first in a BFS): a broken implementation may have an
+            # unbounded state space, do not explore it to the cap
+            st.stopped_early = True
+            break
         hist = frontier.popleft()
         if len(hist) > depth_done:
             depth_done = len(hist)
@@ -70,7 +75,7 @@ def bfs(factory, events, max_depth=None, max_states=200000, enabled=None):
                 st.max_depth_seen = max(st.max_depth_seen, len(nh))
                 if len(st.sample_histories) < 6 and len(nh) >= 3:
                     st.sample_histories.append(nh)
-    st.closed = (max_depth is None or st.max_depth_seen < max_depth) and len(seen) < max_states
+    st.closed = (max_depth is None or st.max_depth_seen < max_depth) and len(seen) < max_states and not getattr(st, 'stopped_early', False)
     st.depth_completed = st.max_depth_seen if st.closed else (max_depth or depth_done)
     return st
 
